@@ -37,6 +37,7 @@ fn main() {
         "C06" => vcheck::checks::hchecks::c06(tier, seed),
         "C07" => vcheck::checks::hchecks::c07(tier, seed),
         "C02" => vcheck::checks::c02::run(tier, seed),
+        "C04" => vcheck::checks::c04::run(tier, seed),
         "C05" => vcheck::checks::c05::run(tier, seed),
         "C08" => vcheck::checks::c08::run(tier, seed),
         "C12" => vcheck::checks::hchecks::c12(tier, seed),
